@@ -133,7 +133,7 @@ func main() {
 			if t == "thorough" {
 				return 300000
 			}
-			return 20000
+			return 60000
 		},
 		Floor: func(t string) int {
 			if t == "thorough" {
